@@ -449,7 +449,7 @@ def component_graphs_on_disk(v, rng, n):
 def run(tier, seed, replay=None):
     v = common.Verdict("C17", tier, seed)
     rng = common.rng_for(seed, "C17", tier)
-    n = 400 if tier == "quick" else 10000
+    n = 1000 if tier == "quick" else 10000
     if replay:
         jobs = [json.load(open(replay))["job"]]
     else:
